@@ -108,6 +108,17 @@ func checkC19(c *Ctx) error {
 		bin = nb
 		c.Add("tool_rebuilds", 1)
 	}
+	// the same configuration given with an additional pattern that matches nothing (before the real ones) is the same configuration
+	{
+		out := filepath.Join(w.TempDir("c19e"), "gontainer.go")
+		args := []string{"build", "-i", "internal/gontainer/no-such-file-*.yml", "-i", "internal/gontainer/gontainer.yaml", "-i", "internal/gontainer/gontainer_*.yml", "-i", "internal/gontainer/gontainer_*.yaml", "-o", out}
+		run := cli.Do(w, bin, nil, w.Repo, out, args...)
+		c.Eval("empty-patterns-first", true)
+		got, _ := os.ReadFile(out)
+		if run.Res.Exit != 0 || normGen(got) != want {
+			c.Violate("self-config-with-empty-patterns-differs", fmt.Sprintf("self configuration given with extra patterns that match nothing: exit %d, output equal to the checked-in file: %v\n%s", run.Res.Exit, normGen(got) == want, firstDiff(want, normGen(got))), nil)
+		}
+	}
 	// the stub of the self configuration must be generated too (Makefile generate-stub) and be stable
 	var stubs []string
 	for r := 0; r < 2; r++ {
